@@ -258,6 +258,13 @@ PLANS["C14"] = dict(
                       select=take_all),
              drive=dict(driver="crl-sched"),
              validate=dict(module="Trace_CRLCache", cfg=C14_TRACE_CFG)),
+        # two writers of ONE url, two stores each: reaches the second store of a writer (re-storing over another writer's entry) often
+        dict(name="schedules-restore",
+             gen=dict(module="MC_CRLCache_C14", cfg=c14_cfg("w2s2", 2, 1, 1, emit=True, maxhist=40, props=(), view=False), workers=1,
+                      extra=lambda tier, seed: ["-simulate", "num=" + ("2000" if tier == "thorough" else "300"), "-depth", "45", "-seed", str(seed + 1)],
+                      select=take_all),
+             drive=dict(driver="crl-sched"),
+             validate=dict(module="Trace_CRLCache", cfg=C14_TRACE_CFG)),
         dict(name="free-running",
              drive=dict(driver="crl-stress"),
              validate=dict(module="Trace_CRLCacheFree", searching=True, recheck=False, jvm="-Dtlc2.tool.queue.IStateQueue=StateDeque",
